@@ -482,6 +482,9 @@ class JsonCommandField(cabc.Sequence):
                 if isinstance(rtn, xlj.LJNode):
                     rtn = rtn.load()
             queue.popleft()
+            # wake the tickets that queued up behind this reader: a flusher
+            # that took the condition first is waiting to be at the front
+            self.hist._cond.notify_all()
         return rtn
 
     def i_am_at_the_front(self):
